@@ -1711,6 +1711,25 @@ package mcp
 //@   assert at call newRequest: @addressed-to-the-subscriber $0 == local(sess) && $1 == lastResult(makeParamsCall, 0)
 //@   assert at call handleNotify: @every-delivery-uses-the-fan-out-context calls(bound) == 1 && $0 == callResult(bound, 1, 0) && $1 == method && $2 == lastResult(mkreq, 0)
 //@   track makeParams as makeParamsCall
+// The HTTP+SSE server transport's POST endpoint (C02/C12 on this transport): a request is pre-validated against the
+// method table of the server the transport is connected to (custom methods included), a message is handed to the
+// session only if body, envelope and request all passed, exactly one of "202 Accepted after handing over" / "an HTTP
+// error" happens, and nothing is handed over after an error reply.
+//@ func (*SSEServerTransport).ServeHTTP [C02, C12]
+//@   track checkRequest as check
+//@   track t.methodInfos as ownTable
+//@   track http.Error as reject
+//@   track DecodeMessage as decode
+//@   track WriteHeader as accept
+//@   track send:t.incoming as handOver
+//@   requires t != nil && req != nil && w != nil
+//@   modifies *
+//@   assert at call checkRequest: @requests-are-checked-against-the-connected-servers-methods t.methodInfos != nil ==> calls(ownTable) == 1 && $1 == callResult(ownTable, 1, 0)
+//@   assert at call send:t.incoming: @only-a-checked-message-is-handed-over calls(reject) == 0 && calls(decode) == 1 && callResult(decode, 1, 1) == nil && $0 == callResult(decode, 1, 0) && (calls(check) == 0 || lastResult(check, 1) == nil)
+//@   ensures @a-rejected-request-is-not-handed-over calls(reject) >= 1 ==> calls(handOver) == 0 && calls(accept) == 0
+//@   ensures @accepted-exactly-when-handed-over calls(accept) == calls(handOver) && calls(handOver) <= 1
+//@   ensures @every-post-gets-an-answer calls(reject) + calls(accept) == 1
+//@   ensures @an-invalid-request-is-a-400 calls(check) == 1 && callResult(check, 1, 1) != nil ==> calls(reject) == 1 && callArg(reject, 1, 2) == 400
 // unmarshalParams of every method (the closure built by newMethodInfo): parameters that do not decode are rejected as
 // invalid params (-32602), never dropped or passed on; when decoding succeeded any rejection is an invalid request
 // (-32600: required params missing or null); a rejection hands back no params.
